@@ -64,22 +64,37 @@ IsCbEv == Ev.a \in {"Startup", "Discover", "Connect", "Release"}
 PostOk == /\ polls' = Ev.polls
           /\ Len(cb') = Ev.ncb
           /\ led' = Ev.led
-          /\ (Ev.a = "Sense" /\ Ev.r = "none") => ~Ev.field     \* nothing found: the field is off again
 
-InvNames == <<"Order", "ReleaseIff", "ReturnValue", "Prompt", "Led">>
+InvNames == <<"Order", "ReleaseIff", "ReturnValue", "Prompt", "Led", "MuteWhenNone">>
 InvP(n) == CASE n = "Order" -> OrderP(cb')
              [] n = "ReleaseIff" -> ReleaseIffP(cb', pc' = "done")
              [] n = "ReturnValue" -> ReturnValueP(pc', ret', cb', left', err', termSeen')
              [] n = "Prompt" -> PromptP(after', lateWork')
              [] n = "Led" -> LedP(pc', led')
+             [] n = "MuteWhenNone" -> ((Ev.a = "Sense" /\ Ev.r = "none") => ~Ev.field)   \* device field after sense()
 AllInv == \A i \in DOMAIN InvNames : InvP(InvNames[i])
 
 Real == Guarded /\ PostOk /\ AllInv
 
 FailedInv == SelectSeq(InvNames, LAMBDA n : ~ENABLED (Guarded /\ PostOk /\ InvP(n)))
+
+\* When the real step is not the one the model takes, the contract is still evaluated on what was OBSERVED:
+\* the callbacks validated so far (= cb) extended by the callback / return value this event reports.
+LowN == CASE Ev.a = "Startup" -> "startup" [] Ev.a = "Discover" -> "discover" [] Ev.a = "Connect" -> "connect"
+          [] Ev.a = "Release" -> "release" [] OTHER -> ""
+ObsCb == IF IsCbEv THEN Append(cb, CbRec(LowN, Ev.o, IF Ev.a = "Startup" THEN Ev.r ELSE Ev.r = "T")) ELSE cb
+ObsBroken ==
+    SelectSeq(<<"Order", "ReleaseIff", "ReturnValue", "Prompt">>, LAMBDA n :
+        CASE n = "Order" -> ~OrderP(ObsCb)
+          [] n = "ReleaseIff" -> ~ReleaseIffP(ObsCb, Ev.a \in {"Return", "Raise"})
+          [] n = "ReturnValue" -> \/ Ev.a = "Raise"
+                                  \/ Ev.a = "Return" /\ ~ReturnValueP("done", Ev.r, cb, left, err \/ DeviceFails, termSeen)
+          [] n = "Prompt" -> termSeen /\ Ev.a \in {"Discover", "Connect", "Presence", "Xchg", "Serve", "Startup"})
 Why == IF ~CfgOk THEN <<"config", "not a canonical configuration">>
-       ELSE IF ~ENABLED Guarded THEN <<"guard", [pc |-> pc, role |-> role, polls |-> polls, envk |-> envk,
-                                                   gone |-> gone, ncb |-> Len(cb), expectedRet |-> RetVal]>>
+       ELSE IF ~ENABLED Guarded THEN
+            IF ObsBroken # <<>> THEN <<"inv", ObsBroken>>
+            ELSE <<"guard", [pc |-> pc, role |-> role, polls |-> polls, envk |-> envk,
+                             gone |-> gone, ncb |-> Len(cb), expectedRet |-> RetVal]>>
        ELSE IF ~ENABLED (Guarded /\ PostOk) THEN <<"post", [pc |-> pc, polls |-> polls, ncb |-> Len(cb), led |-> led]>>
        ELSE <<"inv", FailedInv>>
 
